@@ -175,7 +175,9 @@ def listenerTail (k : Kind) (e : Env) : List Status :=
     match e.listenerType with
     | some t => [proxyOf t e.proxies]
     | none => [.failure]
-  | _ => []
+  -- a request type that no proxy answered and that is not a listener verb is
+  -- refused ("unsupported request type for a worker"), not ignored
+  | _ => if (aggregate (dests k) e.proxies).isSome then [] else [.failure]
 
 /-- `Server::notify_proxys` (after `config_state.dispatch`, whose result is ignored) -/
 def notifyProxys (k : Kind) (e : Env) : List Status :=
@@ -185,26 +187,22 @@ def notifyProxys (k : Kind) (e : Env) : List Status :=
   | .removeHealthCheck | .addBackend | .removeBackend => [.ok]
   | _ => fanout k e ++ listenerTail k e
 
-/-- `Server::notify`: the worker-level verbs push one response and return;
-    `QueryClusterById` pushes and falls through -/
+/-- `Server::notify`: the worker-level verbs push one response and return -/
 def notify (k : Kind) (e : Env) : List Status :=
   match k with
   | .configureMetrics | .queryMetrics | .setMetricDetail => [st e.workerOk]
   | .logging | .queryClustersHashes | .setMaxConnectionsPerIp | .queryMaxConnectionsPerIp
-  | .queryClustersByDomain => [.ok]
-  | .queryClusterById => .ok :: notifyProxys k e
+  | .queryClustersByDomain | .queryClusterById => [.ok]
   | .queryCertificatesFromWorkers => if e.fingerprint then [st e.workerOk] else notifyProxys k e
   | _ => notifyProxys k e
 
-/-- what `notify` leaves in the thread-local QUEUE for a HardStop: it is never
-    flushed (the run loop returns right after the direct write) -/
-def hardStopLostQueue (e : Env) : List Status := notify .hardStop e
-
 /-- `read_channel_messages_and_notify` + the SoftStop completion in
-    `shut_down_sessions`: the statuses that reach the channel for this id -/
+    `shut_down_sessions`: the statuses that reach the channel for this id.
+    HardStop: what `notify` queued (the proxies' Processing) is written out, then
+    the OK, then the run loop returns. -/
 def respond (k : Kind) (e : Env) : List Status :=
   match k with
-  | .hardStop => [.ok]
+  | .hardStop => notify k e ++ [.ok]
   | .returnListenSockets => [st e.workerOk]
   | .softStop => notify k e ++ (if e.drained then [.ok] else [])
   | _ => notify k e
@@ -212,13 +210,14 @@ def respond (k : Kind) (e : Env) : List Status :=
 def finals (l : List Status) : List Status := l.filter (· ≠ .processing)
 
 /-- one readable event of the command channel: `read_channel_messages_and_notify`
-    handles every request it can read, the responses wait in the thread-local
-    QUEUE and are flushed after the loop — but a HardStop writes its own OK
-    directly and makes the run loop return at once: what the earlier requests of
-    the same batch queued is dropped, the later ones are never read. -/
+    handles the requests it can read one after the other; the responses wait in
+    the thread-local QUEUE and are flushed after the loop. A HardStop flushes the
+    queue itself, writes its OK and makes the run loop return: the requests
+    behind it in the channel are never read (the worker is gone). The result
+    lists the responses of the requests that were read. -/
 def batchDelivered (rs : List (Kind × Env)) : List (List Status) :=
   match rs.findIdx? (fun r => r.1 == .hardStop) with
-  | some j => (List.range rs.length).map fun i => if i == j then [.ok] else []
+  | some j => (rs.take (j + 1)).map fun r => respond r.1 r.2
   | none => rs.map fun r => respond r.1 r.2
 
 /-- whether `notify` reaches `notify_proxys` (and therefore `config_state.dispatch`) -/
@@ -226,7 +225,7 @@ def reachesDispatch (k : Kind) (fingerprint : Bool) : Bool :=
   match k with
   | .configureMetrics | .queryMetrics | .setMetricDetail | .logging | .queryClustersHashes
   | .setMaxConnectionsPerIp | .queryMaxConnectionsPerIp | .queryClustersByDomain
-  | .returnListenSockets => false
+  | .queryClusterById | .returnListenSockets => false
   | .queryCertificatesFromWorkers => !fingerprint
   | _ => true
 
@@ -286,7 +285,9 @@ inductive Op
   /-- a kind whose payload decides nothing here (Status, Logging, queries, the
       main-only kinds, `none`) ; `ok` = outcome of the worker-level handler -/
   | plain (k : Kind) (ok : Bool)
-  | addCluster (c : Nat) (hcValid : Bool)
+  /-- `tplValid = false`: the cluster carries a custom answer template that does
+      not parse (the HTTP and HTTPS proxies compile it for each of their listeners) -/
+  | addCluster (c : Nat) (hcValid : Bool) (tplValid : Bool)
   | removeCluster (c : Nat)
   | addBackend (c b a : Nat)
   | removeBackend (c b a : Nat)
@@ -360,7 +361,7 @@ def dispatchView (v : View) (op : Op) : View × Bool :=
   | .plain k _ => (v, Consts.wkDispatchPassthrough.contains k.nameBytes)
   | .queryCerts .. => (v, true)
   | .queryCluster _ => (v, true)
-  | .addCluster c hcValid =>
+  | .addCluster c hcValid _ =>
     if hcValid then ({ v with clusters := c :: v.clusters.filter (· ≠ c) }, true) else (v, false)
   | .removeCluster c =>
     if v.clusters.contains c then ({ v with clusters := v.clusters.filter (· ≠ c) }, true)
@@ -553,7 +554,11 @@ def proxyStep (s : WState) (op : Op) : WState × Env :=
     | _ => (s, envOf ok false true unsupported true none false)
   | .queryCerts fingerprint found => (s, envOf found fingerprint true allOk true none false)
   | .queryCluster _ => (s, envOf true false true unsupported true none false)
-  | .addCluster _ hcValid => (s, envOf true false hcValid allOk true none false)
+  | .addCluster _ hcValid tplValid =>
+    -- `add_cluster_answers` runs once per listener of the HTTP / HTTPS proxy
+    let h := if !tplValid && s.listeners.any (fun l => l.ty == .http) then Status.failure else .ok
+    let hs := if !tplValid && s.listeners.any (fun l => l.ty == .https) then Status.failure else .ok
+    (s, envOf true false hcValid ⟨h, hs, .ok, .ok⟩ true none false)
   | .removeCluster _ => (s, envOf true false true allOk true none false)
   | .addBackend .. | .removeBackend .. | .removeHealthCheck _ =>
     (s, envOf true false true unsupported true none false)
